@@ -9,7 +9,7 @@ CONSTANTS
   MaxLife = 0
   MaxDims = 2
   MaxSteps = 0
-  MaxGen = 0
+  MaxGen = 1
   EmitActs = {"Delete"}
   EmitRes = "any"
   EmitWhen = "always"
